@@ -103,7 +103,9 @@ def is_quantizer(o):
   return isinstance(o, base_quantizer.BaseQuantizer)
 
 
-# {quantizer class: arguments on which its get_config calls `.tolist()`} — from the model's tables
+# {quantizer class: arguments on which its get_config calls a bare `.tolist()`} — from the model's
+# tables (empty for every class since the repair of C13-qbits-post_training_scale-not-numpy; the static
+# tie `static-quantizer-tolist` observes the live classes)
 QTOLIST = {}
 
 
@@ -895,9 +897,11 @@ def keras_name_branches(rng, tier):
 
 def native_value_cases():
   """a plain Python value where the library calls a numpy method in get_config: the constructor
-  accepts it (`np.array(post_training_scale)`), every route then raises AttributeError —
-  known/C13.json C13-qbits-post_training_scale-not-numpy.  One model each (they cannot share a model
-  with anything else)."""
+  accepts it (`np.array(post_training_scale)`), so every route must serialise and rebuild it.
+  (quantized_bits.get_config used to write `self.post_training_scale.tolist()` and every route raised
+  AttributeError — known/C13.json, fixed: C13-qbits-post_training_scale-not-numpy; it now converts
+  with np.asarray first.  No special handling here: if it raises again it is a VIOLATION.)
+  One model each."""
   import qkeras as Q
   return [
       ("post_training_scale=list", "QDense(3, kernel_quantizer=quantized_bits(4,0,1,alpha='auto_po2',post_training_scale=[[0.5,0.25,1.0]]))",
